@@ -182,7 +182,9 @@ impl<T> Vec<T> {
             for col in Entry::matcher_cols_raw(entry, self.columns) {
                 col.get().write(MaybeUninit::new(Utf32String::default()))
             }
+            verif_point!(VecBeforeFill);
             fill_columns(&value, Entry::matcher_cols_mut(entry, self.columns));
+            verif_point!(VecBeforeSlotWrite);
             (*entry).slot.get().write(MaybeUninit::new(value));
             verif_point!(VecBeforeActiveStore);
             // let other threads know that this entry is active
@@ -278,7 +280,9 @@ impl<T> Vec<T> {
                 for col in Entry::matcher_cols_raw(entry, self.columns) {
                     col.get().write(MaybeUninit::new(Utf32String::default()));
                 }
+                verif_point!(VecBeforeFill);
                 fill_columns(&v, Entry::matcher_cols_mut(entry, self.columns));
+                verif_point!(VecBeforeSlotWrite);
                 (*entry).slot.get().write(MaybeUninit::new(v));
                 verif_point!(VecBeforeActiveStore);
                 (*entry).active.store(true, Ordering::Release);
